@@ -52,6 +52,16 @@ MODES = [
 ]
 
 
+def _sig(path):
+    """(mtime, size) of a file outside the session's directory, None if absent: a left-over from an earlier run must not
+    hide a new write to it"""
+    try:
+        st = os.stat(path)
+        return (st.st_mtime_ns, st.st_size)
+    except OSError:
+        return None
+
+
 class Server:
     _started = 0
     def __init__(self, mode, cwd, files):
@@ -321,7 +331,7 @@ def run_sequence(col, r, root, mode, nreq, seqno):
             else:
                 body_bytes = body
             before = tree_hash(watch[:2])
-            evil_before = os.path.exists("/tmp/vmon-evil.ipynb")
+            evil_before = _sig("/tmp/vmon-evil.ipynb")
             col.eval()
             history.append([kind, method, path])
             try:
@@ -386,7 +396,7 @@ def run_sequence(col, r, root, mode, nreq, seqno):
                 col.mon("store_confinement")
                 has_out = mode["name"] == "mergetool-out"
                 foreign = [p for p in changed if p != outpath]
-                if foreign or (os.path.exists("/tmp/vmon-evil.ipynb") and not evil_before):
+                if foreign or (_sig("/tmp/vmon-evil.ipynb") != evil_before):
                     col.violation("store-wrote-outside-designated-output", "changed: %s" % (foreign or ["/tmp/vmon-evil.ipynb"])[:3], wit, "confinement")
                 if not has_out:
                     if status < 400:
